@@ -222,9 +222,13 @@ class C06(Check):
                                 break
                     else:
                         dtn, _, b01 = bits.partition(":")
+                        readonly = dtn.startswith("R")
+                        dtn = dtn[1:] if readonly else dtn
                         strided = dtn.startswith("s")
                         dtn = dtn[1:] if strided else dtn
                         arr = numpy.array([int(x) for x in b01], dtype=numpy.dtype(dtn))
+                        if readonly:
+                            arr.flags.writeable = False
                         if strided:
                             tbl = numpy.zeros((len(b01), 2), dtype=numpy.dtype(dtn))
                             tbl[:, 0] = arr
@@ -352,6 +356,9 @@ class C06(Check):
                         rxl[pos] ^= 1
                         for dt2 in (int, numpy.uint8, bool, numpy.uint64):
                             arr = numpy.array(rxl, dtype=dt2)
+                            ro = (m + pos) % 5 == 0 and not (m + pos) % 2
+                            if ro:
+                                arr.flags.writeable = False  # a read-only array (what numpy.frombuffer over received bytes gives)
                             if (m + pos) % 2:  # strided view (column of a table of that dtype)
                                 tbl = numpy.zeros((n, 2), dtype=dt2)
                                 tbl[:, 0] = arr
@@ -360,12 +367,12 @@ class C06(Check):
                                 rep = cls.correct_numpy_array(arr)
                             except Exception as e:
                                 fail("C06.container", c, f"{c}.correct_numpy_array raised {type(e).__name__}: {e} for a {'strided ' if (m + pos) % 2 else ''}{numpy.dtype(dt2).name} word",
-                                     [[c, "correct-np", ("s" if (m + pos) % 2 else "") + numpy.dtype(dt2).name + ":" + "".join(map(str, rxl))]])
+                                     [[c, "correct-np", ("R" if ro else "") + ("s" if (m + pos) % 2 else "") + numpy.dtype(dt2).name + ":" + "".join(map(str, rxl))]])
                                 continue
                             res["evals"] += 1
                             if [int(x) & 1 for x in rep.tolist()] != cwl:
                                 fail("C06.single-error-repair", c, f"{c}.correct_numpy_array(dtype={numpy.dtype(dt2).name}) of {cwl} with bit {pos} inverted returned "
-                                     f"{[int(x) & 1 for x in rep.tolist()]}", [[c, "correct-np", numpy.dtype(dt2).name + ":" + "".join(map(str, rxl))]])
+                                     f"{[int(x) & 1 for x in rep.tolist()]}", [[c, "correct-np", ("R" if ro else "") + ("s" if (m + pos) % 2 else "") + numpy.dtype(dt2).name + ":" + "".join(map(str, rxl))]])
                     res["cov"].add(f"{c}|ndarray-containers")
             for m, garr, want in held:
                 if [int(x) & 1 for x in garr.tolist()] != want:
